@@ -526,7 +526,30 @@ impl<T: RealNumber + Scalar + AddAssign + SubAssign + MulAssign + DivAssign + Su
     }
 
     fn cov(&self) -> Self {
-        panic!("Not implemented");
+        let (m, n) = BaseMatrix::shape(self);
+
+        let mu = BaseMatrix::column_mean(self);
+
+        let mut cov: Self = DMatrix::zeros(n, n);
+
+        for k in 0..m {
+            for i in 0..n {
+                for j in 0..=i {
+                    cov[(i, j)] += (self[(k, i)] - mu[i]) * (self[(k, j)] - mu[j]);
+                }
+            }
+        }
+
+        let m_t = T::from(m - 1).unwrap();
+
+        for i in 0..n {
+            for j in 0..=i {
+                cov[(i, j)] /= m_t;
+                cov[(j, i)] = cov[(i, j)];
+            }
+        }
+
+        cov
     }
 }
 
